@@ -10,9 +10,17 @@
 
 static long long cases = 0;
 
-template <size_t Cap>
+// a 16-byte trivially copyable element: the copy is not a single machine word
+struct Wide {
+  long a; long b;
+  Wide() : a(0), b(~0L) {}
+  Wide(int x) : a(x), b(~(long)x) {}
+  operator int() const { return b == ~a ? (int)a : -999; }   // -999: torn / mixed copy
+};
+
+template <size_t Cap, typename Elem>
 static void scenario(uint64_t seed, vh::SplitMix& rng, long long it) {
-  using Deque = dispenso::ChaseLevDeque<int, Cap>;
+  using Deque = dispenso::ChaseLevDeque<Elem, Cap>;
   dsched::Options o;
   o.seed = seed * 32452843 + it;
   o.strategy = (it % 4 == 3) ? dsched::PCT : dsched::RANDOM;
@@ -33,6 +41,7 @@ static void scenario(uint64_t seed, vh::SplitMix& rng, long long it) {
     Deque dq;
     dsched::nameRegion(&dq.top_, 8, "top");
     dsched::nameRegion(&dq.bottom_, 8, "bottom");
+    dsched::namePlainRegion(&dq.storage_[0], sizeof(Elem) * Cap, sizeof(Elem), "slot");
     std::vector<int> ownerStack;  // what the owner believes is in the deque, newest last (ghost)
     std::vector<std::thread> ths;
     ths.emplace_back([&] {
@@ -40,15 +49,16 @@ static void scenario(uint64_t seed, vh::SplitMix& rng, long long it) {
       for (int k : plan) {
         if (k == 1) {
           DS_CALL("try_push %d", tag);
-          bool ok = dq.try_push(tag);
+          bool ok = dq.try_push(Elem(tag));
           DS_RET("try_push %d", ok ? 1 : 0);
           if (ok) pushedOk.push_back(tag);
           ++tag;
         } else {
-          int out = -7;
+          Elem outE(-7);
           bool ok;
-          if (k == 0) { DS_CALL("try_pop"); ok = dq.try_pop(out); }
-          else { DS_CALL("try_pop_into"); ok = dq.try_pop_into(&out); }
+          if (k == 0) { DS_CALL("try_pop"); ok = dq.try_pop(outE); }
+          else { DS_CALL("try_pop_into"); ok = dq.try_pop_into(&outE); }
+          int out = (int)outE;
           DS_RET("%s %d%s", k == 0 ? "try_pop" : "try_pop_into", ok ? 1 : 0, ok ? (" " + std::to_string(out)).c_str() : "");
           if (ok) {
             got.push_back(out);
@@ -67,9 +77,10 @@ static void scenario(uint64_t seed, vh::SplitMix& rng, long long it) {
     for (int s = 0; s < stealers; ++s)
       ths.emplace_back([&] {
         for (int i = 0; i < stealOps; ++i) {
-          int out = -7;
+          Elem outE(-7);
           DS_CALL("try_steal");
-          bool ok = dq.try_steal(out);
+          bool ok = dq.try_steal(outE);
+          int out = (int)outE;
           DS_RET("try_steal %d%s", ok ? 1 : 0, ok ? (" " + std::to_string(out)).c_str() : "");
           if (ok) got.push_back(out);
           if (i == 1) {
@@ -85,10 +96,11 @@ static void scenario(uint64_t seed, vh::SplitMix& rng, long long it) {
     size_t expect = pushedOk.size() - got.size();
     size_t n = 0;
     for (;;) {
-      int out = -7;
+      Elem outE(-7);
       bool viaPop = rng.coin();
       if (viaPop) { DS_CALL("try_pop"); } else { DS_CALL("try_steal"); }
-      bool ok = viaPop ? dq.try_pop(out) : dq.try_steal(out);
+      bool ok = viaPop ? dq.try_pop(outE) : dq.try_steal(outE);
+      int out = (int)outE;
       DS_RET("%s %d%s", viaPop ? "try_pop" : "try_steal", ok ? 1 : 0, ok ? (" " + std::to_string(out)).c_str() : "");
       if (!ok) break;
       got.push_back(out);
@@ -114,7 +126,7 @@ static void scenario(uint64_t seed, vh::SplitMix& rng, long long it) {
     std::printf("PFAIL ChaseLevDeque element lost, duplicated or invented | %s pushed=%zu got=%zu\n", desc.c_str(), pushedOk.size(), got.size());
   if (bad) std::printf("PFAIL ChaseLevDeque order/capacity/quiescence contract violated | %s why=%s\n", desc.c_str(), badWhy.c_str());
   std::printf("NT C%zu S%d p%zu g%zu\n", Cap, stealers, pushedOk.size(), got.size());
-  std::string p = "chaselev " + std::to_string(Cap);
+  std::string p = "chaselev " + std::to_string(Cap) + " " + std::to_string(sizeof(Elem));
   dsh::emitTrace(p.c_str(), desc);
 }
 
@@ -124,10 +136,12 @@ int main(int argc, char** argv) {
   vh::SplitMix rng(seed);
   dsh::installStuckHandler();
   for (long long it = 0; it < N; ++it) {
-    switch (it % 3) {
-      case 0: scenario<2>(seed, rng, it); break;
-      case 1: scenario<4>(seed, rng, it); break;
-      case 2: scenario<8>(seed, rng, it); break;
+    switch (it % 5) {
+      case 0: scenario<2, int>(seed, rng, it); break;
+      case 1: scenario<4, int>(seed, rng, it); break;
+      case 2: scenario<8, int>(seed, rng, it); break;
+      case 3: scenario<1, Wide>(seed, rng, it); break;
+      case 4: scenario<2, Wide>(seed, rng, it); break;
     }
   }
   std::printf("STAT cases %lld\n", cases);
